@@ -143,7 +143,32 @@ def rule_b_block_runs(chk, prog):
         any(x.is_inst and x.op == "phi" for x in backward_slice(size, phi_control=False))
     idx_b = any(x.is_inst and x.op == "phi" and x.bb is header
                 for x in backward_slice(b_off, through_loads=True, phi_control=False))
-    if okargs and idx_b:
+    # the length is the whole run: the value of the loop that sums up the block sizes, not something derived from it by a
+    # minimum / a difference of offsets
+    def is_accumulator(v):
+        v = strip_casts(v)
+        while v.is_inst and v.op in ("zext", "sext", "trunc"):
+            v = v.ops[0]
+        return v.is_inst and v.op == "phi" and any(o.is_inst and o.op == "add" and any(strip_casts(q) is v for q in o.ops) for o in v.ops)
+    leaves, work, seenv = [], [size], set()
+    while work:
+        v = strip_casts(work.pop())
+        while v.is_inst and v.op in ("zext", "sext", "trunc"):
+            v = v.ops[0]
+        if id(v) in seenv:
+            continue
+        seenv.add(id(v))
+        if is_accumulator(v):
+            leaves.append(("acc", v))
+        elif v.is_inst and v.op in ("phi", "select"):
+            work += list(v.ops if v.op == "phi" else v.ops[1:])
+        else:
+            leaves.append(("other", v))
+    shortened = [v for (k, v) in leaves if k == "other" and not (v.is_const and v.is_int and v.uval == 0)]
+    if okargs and idx_b and shortened:
+        chk.violation("K13-dedup-args", f.name, cmpc, "the number of bytes compared is not always the summed size of the run (it can be "
+                      "%s): blocks beyond that are accepted on size and checksum alone" % (shortened[0].op if shortened[0].is_inst else "another value"))
+    elif okargs and idx_b:
         chk.ok("K13-dedup-args", f.name, cmpc, "compares the current file's start offset with the candidate's offset over the summed block sizes")
     else:
         chk.violation("K13-dedup-args", f.name, cmpc, "the byte comparison is not given (current file start, candidate offset, summed size)")
